@@ -97,6 +97,10 @@ type Struct struct {
 	Module string
 	Name   string
 	Fields []*Field // ascending tag order
+	// JSONOmitEmpty: the binding was generated with -json-omitempty (zero-valued members are
+	// left out of the JSON form, which by the option's own definition does not round-trip
+	// members whose default is not the zero value)
+	JSONOmitEmpty bool
 }
 
 func (s *Struct) Sort() {
